@@ -635,6 +635,9 @@ class Model:
             if g.wrap is not None:
                 extra["wrap"] = lambda it2, x, cc=cc, g=g: g.wrap(it2, cc, x)
             res = SymIter(g.elem_ty, member, g.distinct, label=c.name, extra=extra)
+            if c.post is not None:
+                p.assume(_zb(c.post(cc)), f"postcondition of {c.name}")
+            p.call_marks[-1][2] = len(p.pc)
             return res
         if c.ret_make is not None:
             res = c.ret_make(cc)
